@@ -20,8 +20,8 @@ var c17Bits = []uint32{0x1d00ffff, 0x207fffff}
 // c17Store: an arbitrary store whose longest chain consists of real headers, built constructively
 // (hashes are COMPUTED from the fields, so that natively they are real double-SHA-256 values):
 // genesis with a zero previous hash, every further longest-chain row linked to the previous one,
-// own work = work of its bits, cumulative work accumulated; stale and orphan rows are arbitrary and
-// sit at arbitrary positions. INV-H is then assumed of the whole table (it constrains the
+// own work = work of its bits, cumulative work accumulated; stale and orphan rows are arbitrary
+// (except for their difficulty bits, taken from the same menu) and sit at arbitrary positions. INV-H is then assumed of the whole table (it constrains the
 // arbitrary rows and rules out hash collisions).
 func c17Store(k int) []hstore.H {
 	pre := make([]hstore.H, k)
@@ -30,6 +30,9 @@ func c17Store(k int) []hstore.H {
 		pre[i] = hstore.NondetH()
 		if i > 0 && !vh.NondetBool("onLongestChain") {
 			vh.Assume(pre[i].State != hstore.L)
+			// difficulty bits from the menu as well: should such a row ever reach the import, its
+			// work is computed from them (an arbitrary symbolic value makes that a symbolic division)
+			pre[i].Bits = c17Bits[vh.Choose(len(c17Bits))]
 			// its parent: one of the earlier rows, or unknown
 			if p := vh.Choose(i + 1); p < i {
 				pre[i].Prev = pre[p].Hash
